@@ -2,6 +2,7 @@ import ConfModel.Driver.Common
 import ConfModel.Model.Convert
 import ConfModel.Model.Base64
 import ConfModel.Spec.Convert
+import ConfModel.Model.ProtoWire
 namespace ConfModel.Driver.C18
 open Lean ConfModel.Driver ConfModel.Convert ConfModel.ConvertSpec
 
@@ -336,6 +337,92 @@ def handle : Handler := fun op inp impl =>
     { agree := canonMD (hsAsMD implHs) == canonMD (hsAsMD mHs) && canonMD (nonEmpty back) == canonMD (nonEmpty m),
       holds := holds, nontrivial := claimed && h.length > 1, model := canonJson "k" (canonMD m),
       why := if holds then "" else "http.Header -> ConvertToProtoHeader -> AddHeaders does not hold every value of every key" }
+  | "anyconn" =>
+    let e := parseErr (field inp "err")
+    let kind := str (field inp "kind")
+    let text := str (field inp "text")
+    let implOut := parseErr? impl
+    let g : Option GoErr := match kind with
+      | "nil" => none
+      | "plain" => some (.plain text)
+      | "connect" => some (.connect (protoToConnect e))
+      | _ => some (.wrapped (protoToConnect e))
+    let mOut := (errorToConnect g).map connectToProto
+    let holds := match kind with
+      | "nil" => implOut.isNone
+      | "plain" => (match implOut with | some o => o.code == codeUnknown && o.getMessage == text && o.details.isEmpty | none => false)
+      | _ => match implOut with
+        | some o => if DefaultPrefixed e then sameError o e else sameErrorTypes o e
+        | none => false
+    { agree := implOut == mOut, holds := holds, nontrivial := kind != "nil", model := errJson mOut, cls := kind,
+      why := if holds then "" else "error not preserved by ConvertErrorToConnectError (" ++ kind ++ ")" }
+  | "nilconv" =>
+    let all := ["protoToConnect", "connectToProto", "protoToGrpc", "grpcToProto", "errToConnect", "errToProto"]
+    let bad := all.filter (fun k => !bool (field impl k))
+    { agree := bad.isEmpty, holds := bad.isEmpty, nontrivial := true,
+      why := if bad.isEmpty then "" else s!"a nil error is not converted to nil by {bad}" }
+  | "getrt" =>
+    let fail := str (field impl "fail")
+    if fail != "" then { agree := false, holds := false, why := "GET message round trip: " ++ fail } else
+    let data := unhex (str (field inp "data"))
+    let b64p := bool (field inp "base64")
+    let sent := unhex (str (field impl "sent"))
+    let param := unhex (str (field impl "param"))
+    -- the parameter the server received is the sender's encoding of the message bytes, and reads back to them
+    let mParam := if b64p then ConfModel.Base64.encodeURLPadded sent else sent
+    let paramReads := if b64p then ConfModel.Base64.decodeURLPadded param == some sent else param == sent
+    let holds := nat (field impl "status") == 200 && bool (field impl "decoded") && unhex (str (field impl "data")) == data && paramReads
+    { agree := param == mParam && holds, holds := holds, nontrivial := !data.isEmpty, model := hex mParam,
+      cls := (if bool (field inp "json") then "json" else "proto") ++ (if b64p then "+base64" else ""),
+      why := if holds then "" else
+        s!"the request message of a Connect GET ({hex sent}) sent by the reference client's raw request sender does not reach the reference server's handler unchanged: status {nat (field impl "status")}, message parameter received {hex param}, decoded request data {str (field impl "data")}" }
+  | "codecbad" =>
+    let codec := str (field inp "codec")
+    let kind := str (field inp "kind")
+    let data := unhex (str (field inp "data"))
+    let known : ProtoWire.Known := (arr (field inp "known")).map fun e => (nat (field e "num"), (arr (field e "wt")).map nat)
+    let cls := str (field impl "class")
+    let parses := bool (field impl "parses")
+    let unkAny := bool (field impl "unknownAny")
+    let wtName (n : Nat) : String := match n with
+      | 0 => "varint" | 1 => "fixed64" | 2 => "bytes" | 3 => "start-group" | 5 => "fixed32" | _ => "?"
+    if codec.startsWith "notproto" then
+      let holds := cls == "not-proto"
+      { agree := holds, holds := holds, nontrivial := true, cls := "bad:" ++ codec,
+        why := if holds then "" else "a message that is not a proto.Message is not refused by the strict codec: " ++ cls } else
+    -- the property: accepted => the bytes are a well-formed message of the type without unknown
+    -- fields at any depth, decoded to that message; rejected => they are not (no spurious refusal)
+    let accepted := cls == "ok"
+    let clean := parses && !unkAny
+    let holdsCore := if accepted then clean && bool (field impl "equal") else !clean
+    if codec.startsWith "stream" then
+      -- the stdin / stdout stream codecs are not the strict ones: the binary one keeps unknown
+      -- fields, the JSON one reads the first value of the stream; no crash, nothing well-formed refused,
+      -- and what is accepted is the message the library reads
+      let refusedOk := if codec == "stream-proto" then !parses else !clean
+      let holdsS := if accepted then (!parses || bool (field impl "equal")) else refusedOk
+      { agree := holdsS, holds := holdsS, nontrivial := kind != "valid", cls := "bad:" ++ codec ++ ":" ++ kind,
+        why := if holdsS then "" else s!"{codec} decoder on {kind} input {hex data}: outcome {cls}, but the library says parses={parses}, unknown fields={unkAny}" } else
+    if codec != "proto" then
+      { agree := holdsCore && (accepted || cls == "malformed"), holds := holdsCore, nontrivial := kind != "valid", cls := "bad:" ++ codec ++ ":" ++ kind,
+        why := if holdsCore then "" else s!"strict {codec} codec on {kind} input {hex data}: outcome {cls}, but the library says parses={parses}, unknown fields={unkAny}" } else
+    -- binary: the model of the top-level walk, with the library's verdict on the contents of known fields
+    let m := ProtoWire.strictTop known data
+    let walkOk := (ProtoWire.fields data).isSome
+    let mCls : String := if !parses then "malformed" else match m with
+      | .ok => "ok" | .malformed => "malformed" | .unknown _ _ => "unknown"
+    let reportOk := match m with
+      | .unknown num wt => cls != "unknown" || (nat (field impl "num") == num && str (field impl "wt") == wtName wt)
+      | _ => true
+    -- a message the library parses has a well-formed top level
+    let consistent := !parses || walkOk
+    let holds := holdsCore && (cls != "unknown" || !parses || reportOk)
+    { agree := cls == mCls && reportOk && consistent && (bool (field impl "unknownTop") == (parses && m != .ok)),
+      holds := holds, nontrivial := kind != "valid", cls := "bad:proto:" ++ kind,
+      model := toJson mCls,
+      why := if holds then "" else
+        (if accepted && parses && !bool (field impl "unknownTop") && unkAny then "F28: StrictProtoCodec accepts a message with an unknown field inside a nested message (only the top-level unknown-field set is looked at): " else "") ++
+        s!"strict proto codec on {kind} input {hex data}: outcome {cls} (field {nat (field impl "num")}), but the library says parses={parses}, unknown fields at the top level={bool (field impl "unknownTop")}, at any depth={unkAny}; top-level walk of the model: {reprStr m}" }
   | _ => bad ("C18: unknown op " ++ op)
 
 end ConfModel.Driver.C18
